@@ -32,10 +32,12 @@ static int round_read(int r){ // k reads + maybe a barrier on one channel fed by
   for(int i=0;i<k;i++){ S[i].idx=i; S[i].is_barrier = (i>0 && i<k-1 && rnd()%5==0); S[i].want = S[i].is_barrier?0:1+rnd()%3000; total+=S[i].want; S[i].buf=malloc(S[i].want+1); }
   size_t extra = rnd()%2? 0 : rnd()%500; // bytes beyond what the reads ask for stay in the pipe
   int qserial = rnd()%2; dispatch_queue_t q=dispatch_queue_create("rq", qserial? NULL : DISPATCH_QUEUE_CONCURRENT);
-  __block _Atomic int cleanup=0; __block _Atomic int handlers_live=0;
+  __block _Atomic int cleanup=0; __block _Atomic int handlers_live=0; __block _Atomic int zsub=0, zran=0;
   dispatch_semaphore_t cs=dispatch_semaphore_create(0);
   dispatch_io_t ch=dispatch_io_create(DISPATCH_IO_STREAM,p[0],q,^(int e){ (void)e; if(atomic_fetch_add(&cleanup,1)) fail("cleanup handler ran twice: round",r,0,0);
-      if(handlers_live) fail("cleanup handler ran while an I/O handler was running: round",r,0,0); close(p0); dispatch_semaphore_signal(cs); });
+      if(handlers_live) fail("cleanup handler ran while an I/O handler was running: round",r,0,0);
+      if(atomic_load(&zsub) && !atomic_load(&zran)) fail("cleanup handler ran before the handler of a (zero-length) operation scheduled before the channel was closed: round",r,0,0);
+      close(p0); dispatch_semaphore_signal(cs); });
   size_t high = rnd()%3? 1+rnd()%700 : SIZE_MAX; size_t low = rnd()%3? 1+rnd()%64 : 0; if(high!=SIZE_MAX) dispatch_io_set_high_water(ch,high); if(low) dispatch_io_set_low_water(ch,low);
   size_t eff_high = high; if(low>eff_high) eff_high=low;
   dispatch_group_t g=dispatch_group_create();
@@ -69,8 +71,14 @@ static int round_read(int r){ // k reads + maybe a barrier on one channel fed by
     if(o->got!=o->want) fail("read delivered fewer bytes than requested although the stream had them: round/op/got",r,i,(long)o->got);
     for(size_t j=0;j<o->got;j++) if(o->buf[j]!=pat(off+j)){ fail("bytes delivered out of order or corrupted: round/op/pos",r,i,(long)j); break; }
     off+=o->got; }
+  // a zero-length read scheduled BEFORE the close, its handler on a serial queue that is busy for a few milliseconds: the cleanup
+  // handler runs after all handlers of the channel, this one included
+  // (a plain close only: DISPATCH_IO_STOP marks the channel at once, the operation is then one "scheduled on a closed channel")
+  dispatch_queue_t zq=dispatch_queue_create("zq",NULL); int stop=(int)(rnd()%2);
+  if(!stop && rnd()%2){ dispatch_async(zq,^{ usleep(5000); }); atomic_store(&zsub,1);
+    dispatch_io_read(ch,0,0,zq,^(bool done, dispatch_data_t d, int err){ (void)d;(void)err; if(done) atomic_store(&zran,1); }); }
   // operations scheduled after close complete with ECANCELED
-  dispatch_io_close(ch, rnd()%2? DISPATCH_IO_STOP : 0);
+  dispatch_io_close(ch, stop? DISPATCH_IO_STOP : 0);
   dispatch_semaphore_t s2=dispatch_semaphore_create(0); __block int e2=-1; __block int n2=0;
   dispatch_io_read(ch,0,10,q,^(bool done, dispatch_data_t d, int err){ (void)d; if(done){ e2=err; n2++; dispatch_semaphore_signal(s2);} });
   if(dispatch_semaphore_wait(s2,dispatch_time(DISPATCH_TIME_NOW,10ll*1000000000ll))) fail("operation on a closed channel never completed: round",r,0,0);
@@ -86,6 +94,7 @@ static int round_read(int r){ // k reads + maybe a barrier on one channel fed by
   dispatch_release(ch);
   if(dispatch_semaphore_wait(cs,dispatch_time(DISPATCH_TIME_NOW,10ll*1000000000ll))) fail("cleanup handler never ran: round",r,0,0);
   usleep(2000); if(cleanup!=1) fail("cleanup handler count != 1: round/count",r,cleanup,0);
+  dispatch_sync(zq,^{}); dispatch_release(zq);
   for(int i=0;i<k;i++) free(S[i].buf); free(S); dispatch_release(q); dispatch_release(g); return k; }
 static int round_write(int r){ // several writes with interposed short writes; the reader drains the pipe
   int p[2]; if(pipe(p)) return 0; int p1=p[1]; int k=1+(int)(rnd()%5); size_t total=0; size_t lenv[8]; size_t *len=lenv;
